@@ -178,7 +178,8 @@ def check_kernel_quadrature(chk, r, n_cases):
                 ("probit+affine", {"bounded_to_unbounded": True, "bounded_transform": "probit", "affine_transform": True}),
                 ("logit+affine", {"bounded_to_unbounded": True, "bounded_transform": "logit", "affine_transform": True}),
                 ("affine", {"bounded_to_unbounded": False, "affine_transform": True}),
-                ("periodic", {"bounded_to_unbounded": False, "affine_transform": False, "periodic": [0]})]
+                ("periodic", {"bounded_to_unbounded": False, "affine_transform": False, "periodic": [0]}),
+                ("periodic+affine", {"bounded_to_unbounded": False, "affine_transform": True, "periodic": [0]})]
     for t in range(n_cases):
         pname, pc = pre_opts[t % len(pre_opts)]
         sampler = ("minipcn_smc", "emcee_smc")[(t // len(pre_opts)) % 2]
@@ -198,7 +199,10 @@ def check_kernel_quadrature(chk, r, n_cases):
             s, flow, target = c05.make(cfg)
             xp = ns.get_xp(nsn)
             tr = s.preconditioning_transform
-            xfit = np.random.default_rng(cfg["fit_seed"]).uniform(-0.9 * half, 0.9 * half, (40, 1))
+            # the preconditioning is fitted to the current particles: spread over the prior range at first, concentrated later
+            # (a fitted scale below one makes the preconditioned coordinate LARGER than the native one)
+            spread = 0.9 if t % 2 == 0 else 0.12
+            xfit = np.random.default_rng(cfg["fit_seed"]).uniform(-spread * half, spread * half, (40, 1))
             s.fit_preconditioning_transform(xp.asarray(xfit))
             unbounded = bool(pc and pc.get("bounded_to_unbounded"))
             eps = 1e-13 * 2 * half if unbounded else 1e-12 * half   # (the upper edge itself wraps under the periodic map)
@@ -347,7 +351,7 @@ def run(chk: core.Check):
                     "analytic truth from scipy.stats.norm"]
     check_enumeration(chk, r, 18 if quick else 150, quick)
     check_step_enumeration(chk, r, 12 if quick else 100)
-    check_kernel_quadrature(chk, np.random.default_rng(chk.seed + 1003), 14 if quick else 140)
+    check_kernel_quadrature(chk, np.random.default_rng(chk.seed + 1003), 16 if quick else 144)
     check_replicates(chk, r, quick)
 
     def search():
